@@ -39,8 +39,11 @@ class LogDeque(collections.deque):
     """`_out_packet` with its operations reported as events"""
     EV = None
     NEXT = [1]
+    EPOCH = [0]          # number of clear() calls so far
+    LAST = [None]        # the packet popleft() returned last
 
     def append(self, p):
+        p.setdefault("epoch", LogDeque.EPOCH[0])
         if "vid" not in p:
             if (p["command"] & 0xF0) == 0x10:
                 p["vid"] = 0
@@ -58,6 +61,7 @@ class LogDeque(collections.deque):
             if LogDeque.EV is not None:
                 LogDeque.EV("wk", "popleft")
             raise
+        LogDeque.LAST[0] = p
         if LogDeque.EV is not None:
             LogDeque.EV("wk", "popleft")
         return p
@@ -68,6 +72,7 @@ class LogDeque(collections.deque):
             LogDeque.EV("wk", "appendleft")
 
     def clear(self):
+        LogDeque.EPOCH[0] += 1
         super().clear()
         if LogDeque.EV is not None:
             LogDeque.EV("wk", "clear")
@@ -99,11 +104,16 @@ def replay_model(events):
 
 
 class AutoBroker:
-    def __init__(self, w, proto):
+    def __init__(self, w, proto, drop=0):
         self.w = w
         self.proto = proto
         self.buf = {}
         self.seen = {}
+        self.drop = drop          # close the first connection after this many PUBLISH packets (0 = never)
+        self.npub = 0
+        self.dropped = False
+        self.refused = set()      # connections the broker has closed: nothing is answered on them any more
+        self.closed_any = False
 
     def on_tx(self, sock, data):
         c = sock.conn
@@ -120,8 +130,26 @@ class AutoBroker:
                 d = wire.dec_client_packet(p, self.proto)
             except wire.Malformed as e:
                 d = {"type": "MALFORMED", "why": str(e)}
+            first = c not in self.seen
             self.seen.setdefault(c, []).append(d)
             t = d["type"]
+            if c in self.refused:
+                continue
+            if first and t != "CONNECT":
+                # MQTT-3.1.0-1: the first packet must be CONNECT; a conforming broker closes the connection
+                self.refused.add(c)
+                self.closed_any = True
+                sock.feed_eof()
+                continue
+            if t == "PUBLISH" and self.drop and not self.dropped:
+                self.npub += 1
+                if self.npub >= self.drop:
+                    # the connection dies: the network thread reconnects while the publishers go on
+                    self.dropped = True
+                    self.closed_any = True
+                    self.refused.add(c)
+                    sock.feed_eof()
+                    continue
             if t == "CONNECT":
                 sock.feed(wire.enc_connack(self.proto))
             elif t == "PUBLISH" and d["qos"] == 1:
@@ -133,7 +161,10 @@ class AutoBroker:
 
 
 def run_scenario(line):
-    """thr seed=.. policy=random|pct pubs=2 msgs=q,q;q,q N=1 early=0|1 proto=4"""
+    """thr seed=.. policy=random|pct msgs=q,q;q,q N=1 early=0|1 proto=4 conn=sync|async drop=k part=k
+    conn=sync: connect() then loop_start(); conn=async: connect_async() then loop_start() - the network thread makes the
+    connection while the publishers are already publishing; drop=k: the broker closes the first connection at the k-th
+    PUBLISH (the network thread reconnects under load); part=k: the socket accepts 1..k bytes per send()."""
     import warnings
     warnings.simplefilter("ignore", DeprecationWarning)
     a = {}
@@ -154,17 +185,24 @@ def run_scenario(line):
         sch.change_points = {rng.randrange(1, 3000) for _ in range(int(a.get("depth", 3)))}
     S.SLock.SCHED = sch
     w.sched = sch
-    br = AutoBroker(w, proto)
+    br = AutoBroker(w, proto, int(a.get("drop", "0")))
 
     def tx_hook(sock, data):
+        if sock.conn not in first_sent and LogDeque.LAST[0] is not None:
+            first_sent[sock.conn] = LogDeque.LAST[0].get("epoch") == LogDeque.EPOCH[0]
         if TClient.EV is not None and len(data):
             TClient.EV("wk", "send", len(data))
         br.on_tx(sock, data)
     w.tx_hook = tx_hook
-    gate = a.get("gate", "0") == "1"
+    conn_async = a.get("conn", "sync") == "async"
+    drop = int(a.get("drop", "0"))
     part = int(a.get("part", "0"))
     LogDeque.NEXT[0] = 1
+    LogDeque.EPOCH[0] = 0
+    LogDeque.LAST[0] = None
+    first_sent = {}       # connection -> was its first packet queued after the reconnect()'s clear()?
     c = TClient(V2, client_id="cid", protocol=PROTO[proto])
+    sch.client = c
     name_locks(c)
     c._out_packet = LogDeque()
     c.max_inflight_messages_set(int(a.get("N", 20)))
@@ -212,11 +250,11 @@ def run_scenario(line):
     WORLD.EVHOOK = lambda *w: EV("wk", *w)
     _orig_ev = sch.ev
 
-    def ev_wrap(*words):
+    def ev_wrap(*words, **kw):
         # a new mid section starts at `enter`
         if words[0] == "mid" and words[1] == "enter":
             state["sec"][sch.tid()] = {}
-        _orig_ev(*words)
+        _orig_ev(*words, **kw)
     sch.ev = ev_wrap
     if part:
         _ons = w._new_socket
@@ -239,8 +277,7 @@ def run_scenario(line):
 
     def publisher(i):
         def run():
-            if gate:
-                sch.block_until(lambda: started["v"], "loop_start() returned")
+            sch.block_until(lambda: started["v"], "loop_start() returned")
             for j, q in enumerate(progs[i]):
                 try:
                     info = c.publish(f"t/{i}/{j}", bytes([65 + i, 48 + j]) * 3, q)
@@ -252,7 +289,11 @@ def run_scenario(line):
 
     def controller():
         try:
-            c.connect("broker", 1883, 60)
+            c.reconnect_delay_set(1, 1)
+            if conn_async:
+                c.connect_async("broker", 1883, 60)
+            else:
+                c.connect("broker", 1883, 60)
             c.loop_start()
             started["v"] = True
             if early:
@@ -261,7 +302,9 @@ def run_scenario(line):
             else:
                 def all_done():
                     # accepted = SUCCESS or NO_CONN (stored, sent once the connection is up)
-                    return all(done_pub) and all((r[2]._published if r[0] in (0, 4) and (r[3] > 0 or r[0] == 0) else True) for r in results.values())
+                    # (a QoS 0 message queued on a connection that dies is lost: not waited for when the broker drops)
+                    return all(done_pub) and all((r[2]._published if r[0] in (0, 4) and (r[3] > 0 or (r[0] == 0 and not drop)) else True)
+                                                 for r in results.values())
                 sch.block_until(all_done, "all publishes completed")
             c.disconnect()
             c.loop_stop()
@@ -272,17 +315,19 @@ def run_scenario(line):
     sch.spawn("ctl", controller)
     for i in range(len(progs)):
         sch.spawn(f"pub{i}", publisher(i))
-    failed = sch.run("ctl")
+    import gc
+    gc.collect()
+    gc.disable()
+    try:
+        failed = sch.run("ctl")
+    finally:
+        gc.enable()
     S.SLock.SCHED = None
     w.sched = None
     TClient.EV = None
     LogDeque.EV = None
     WORLD.EVHOOK = None
     events = list(sch.events)
-    if not gate:
-        # publishers running before loop_start() may write directly (`_thread is None`): two writers, outside the
-        # hand-off model - only the id generator and the lock order are replayed
-        events = [e for e in events if not e[0].startswith("wk ")]
     mismatch = replay_model(events) if failed is None else None
     # ---- canonical observation
     mids = [r[1] for r in results.values()]
@@ -301,8 +346,11 @@ def run_scenario(line):
                  for cn, ds in br.seen.items()},
         "qos": {f"{k[0]}.{k[1]}": v[3] for k, v in results.items()},
         "early": early,
+        "dropped": br.closed_any,
+        "first_fresh": {str(k): v for k, v in first_sent.items()},
         "clock_advanced": w.clock.ms - 1_000_000,
         "model_mismatch": mismatch,
+        "sched_races": sch.races[:3],
         "nevents": len(events),
     }
     return obs
@@ -322,7 +370,11 @@ def check(obs, line):
         if any(p[0] == "MALFORMED" for p in pk):
             hits.append(("wire-corrupt", f"connection {cn}: a packet on the wire is not well-formed: {pk}"))
         if pk and pk[0][0] != "CONNECT":
-            hits.append(("connect-not-first", f"connection {cn} starts with {pk[0][0]}"))
+            if obs.get("first_fresh", {}).get(str(cn), True):
+                # queued after reconnect() cleared the queue, ahead of CONNECT: another thread got in between
+                hits.append(("connect-not-first", f"connection {cn} starts with {pk[0][0]} (queued by another thread between reconnect()'s clear() and its CONNECT)"))
+            else:
+                hits.append(("stale-packet-first", f"connection {cn} starts with {pk[0][0]}, a packet queued before the connection was made"))
         pubs = [p[2] for p in pk if p[0] == "PUBLISH"]
         if len(set(pubs)) != len(pubs):
             hits.append(("published-twice", f"connection {cn}: a PUBLISH appears twice: {pubs}"))
@@ -336,8 +388,18 @@ def check(obs, line):
             i, j = k.split(".")
             topic = hx(f"t/{i}/{j}".encode())
             accepted = rc == 0 or (rc == 4 and obs["qos"][k] > 0)
-            if accepted and allpubs.count(topic) != 1:
-                hits.append(("not-exactly-once", f"message {k} (rc {rc}) appears {allpubs.count(topic)} times on the wire"))
+            n = allpubs.count(topic)
+            if obs.get("dropped"):
+                # connections were lost: a QoS>0 message may be retransmitted on each later connection (at most
+                # once per connection: checked above); a QoS 0 message queued on the dying connection may be lost
+                bad = accepted and (n < 1 or n > len(obs["wire"])) if obs["qos"][k] > 0 else n > 1
+                if bad:
+                    hits.append(("not-exactly-once", f"message {k} (rc {rc}, qos {obs['qos'][k]}) appears {n} times on the wire across a reconnect"))
+                if accepted and obs["qos"][k] > 0 and obs["published"][k] is not True:
+                    hits.append(("not-completed", f"message {k} never completed"))
+                continue
+            if accepted and n != 1:
+                hits.append(("not-exactly-once", f"message {k} (rc {rc}) appears {n} times on the wire"))
             if accepted and obs["published"][k] is not True:
                 hits.append(("not-completed", f"message {k} never completed"))
         if obs["inflight"] != 0 or obs["out_left"] != 0:
@@ -359,7 +421,7 @@ class ThreadStream:
             msgs = ";".join(",".join(str(rng.choice([0, 1, 2])) for _ in range(rng.randint(1, 3))) for _ in range(npub))
             case.append(f"thr seed={rng.randrange(10**6)} policy={rng.choice(['random', 'random', 'pct'])} sw={rng.choice(['0.1', '0.3', '0.6'])} "
                         f"msgs={msgs} N={rng.choice([1, 2, 20])} early={int(rng.random() < 0.3)} proto={rng.choice([4, 5])} "
-                        f"gate={int(rng.random() < 0.6)} part={rng.choice([0, 0, 3, 9])}")
+                        f"conn={rng.choice(['sync', 'async'])} drop={rng.choice([0, 0, 1, 2, 3])} part={rng.choice([0, 0, 3, 9])}")
         return case
 
     def real(self, case):
@@ -391,6 +453,11 @@ class ThreadStream:
         for line, o in zip(case, obs):
             d = json.loads(o)
             f.add("early" if d["early"] else "drain")
+            f.add("conn=" + ("async" if "conn=async" in line else "sync"))
+            if d.get("dropped"):
+                f.add("reconnect-under-load")
+            if d.get("nevents", 0) > 0:
+                f.add("model-replayed")
             f.add("steps>1000" if d["steps"] > 1000 else "steps<=1000")
             if any(v == 4 for v in d["rcs"].values()):
                 f.add("publish-before-connect")
